@@ -589,8 +589,16 @@ Proof. vm_compute. repeat split. Qed.
    ([genv_rel*]; proved for ALL builtin names right after load_builtins, C01_load_builtins_ok, not
    after the prelude), the specification of the builtins used ([builtin_ok], proved for `not`), and
    that the macro expander leaves the form alone (explicit [transform_expr] premise).
-   Not covered: the (define (f x ...) body) spelling (same code as (define f (lambda ...)) up to the
-   free-symbol analysis of the define form), internal definitions, variadic lambdas, builtins
+   The (define (f x1 ... xn) body ...) spelling of a top-level procedure definition IS covered (work
+   package c01e): C01_define_spelling (for a non-primitive symbol name, a proper list of symbol
+   formals and a non-empty body the compiler treats it, as an M-computation, exactly as
+   (define f (lambda (x1 ... xn) body ...)) — same code, same machine, same error — with one level of
+   fuel less; the free-symbol analysis of the define form equals that of the lambda expression),
+   C01_sugar_compile6, C01_eval_fragment6_sugar and C01_eval_fragment6_sugar_session (fragment 6's
+   theorems about the sugared datum).  The spelling with a dotted formal list
+   (define (f . args) ...) is NOT the same computation: the "define" arm of the free-symbol analysis
+   binds the rest symbol, the "lambda" arm does not.
+   Not covered: internal definitions, variadic lambdas, builtins
    applied to closures, closure results in the _done forms, quasiquote, define-syntax, the
    derived forms of the prelude (they are macros: `let`, `begin`, `cond`, ... expand into the core
    forms of the fragments, but the expander is not part of the proved pipeline), builtins with
@@ -1190,3 +1198,151 @@ Example C01_counter6_run :
    | _ => False
    end).
 Proof. split; [exact counter6_run|split; [exact counter6_1_run|exact counter6_3_run]]. Qed.
+
+(* ============================================================ the (define (f x1 ... xn) body ...) spelling
+   (work package c01e, Proofs/DefineSugar.v, DefineSugar6.v, DefineSugarBoot.v).
+   compile_define (compile.rs:235-296) hands the whole define form to compile_lambda with
+   is_define = true: the formals are the cdr of the head, the free-symbol analysis runs on the
+   define form (its "define" arm pushes the formals exactly as the "lambda" arm does for a proper
+   list of symbols; the fuel of the analysis is irrelevant above the size of the datum,
+   C01_free_symbols_fuel).  [desugar_define] is the syntactic translation on data:
+   (define (x . formals) . body) |-> (define x (lambda formals . body)), anything else unchanged.
+   C01_define_spelling: for a symbol name that is not a primitive symbol, a proper list of symbol
+   formals and a non-empty body, compile_expression on the sugared datum IS compile_expression on
+   the translated datum with one more level of fuel — the same M-computation: same emitted code,
+   same lambda objects, same final machine, same error.  Vm::compile gives compile_expression the
+   fuel S (S (size of the datum)) and the sugared datum is SMALLER than its translation, so the
+   eval-level theorem is re-assembled from the fragment-6 theorems for the lambda expression
+   (C01_sugar_compile6) and the generic HALT-exit lemma C01_eval_of_exec6. *)
+From MW Require Import Proofs.DefineSugar Proofs.DefineSugar6.
+From MW Require Proofs.DefineSugarBoot.
+
+Theorem C01_free_symbols_fuel : forall f1 c env free, (cell_size c < f1)%nat ->
+  forall f2, (cell_size c < f2)%nat -> ffs f1 c env free = ffs f2 c env free.
+Proof. exact ffs_fuel. Qed.
+Print Assumptions C01_free_symbols_fuel.
+
+Theorem C01_desugar_define_unfold : forall x ps fs bodies,
+  sugar6 x ps bodies = CPair DEFINE_ (CPair (CPair (CSym x) (syms_of ps)) (fold_right CPair CNil (map cell_of6 bodies))) /\
+  desugar_define (sugar6 x ps bodies) = cell_of6 (WDefine x (WLam ps fs bodies)).
+Proof. intros x ps fs bodies. split; reflexivity. Qed.
+Print Assumptions C01_desugar_define_unfold.
+
+Theorem C01_define_spelling : forall x ps bs, bs <> [] -> is_primitive_symbol (CSym x) = false ->
+  forall f l tail s,
+    compile_expression (S f) l tail (sugar_cell x ps bs) s =
+    compile_expression (S (S f)) l tail (desugar_define (sugar_cell x ps bs)) s.
+Proof. exact define_spelling. Qed.
+Print Assumptions C01_define_spelling.
+
+(* compile-and-run correctness of the sugared form (the statement of C01_fragment6_static and
+   C01_fragment6_correct for (define x (lambda ...)), about the SUGARED datum), for every fuel
+   the lambda expression needs *)
+Theorem C01_sugar_compile6 :
+  forall (ob : N -> M vcell) (bsem : N -> list rval -> option rval),
+  (forall b, builtin_ok ob bsem b) -> (forall b, builtin_envs ob bsem b) ->
+  forall sc lv sg rho x ps fs bodies r1 sg1 rho1,
+  wf6 (WDefine x (WLam ps fs bodies)) sc ->
+  ref_eval6 bsem sc lv sg rho (WLam ps fs bodies) r1 sg1 rho1 ->
+  forall f l tail s, (cell_size (cell_of6 (WLam ps fs bodies)) <= f)%nat -> hdr6 l sc s -> minv s ->
+  exists l' s' code, compile_expression (S f) l tail (sugar6 x ps bodies) s = ROk l' s' /\
+    fwd l' = fwd l ++ code /\ same_hdr l l' /\ minv s' /\ cext s s' /\ same_regs s s' /\
+    envs (st s') = envs (st s) /\
+    forall m mu lp bc,
+      cext s' m -> minv m -> code_in m lp bc -> seg bc (len (fwd l)) code -> ip m = (lp, len (fwd l)) ->
+      genv_rel6 mu rho m -> lrel6 mu lv m -> store_rel mu sg m -> (tail = true -> tframe m) ->
+      ok_n6 ob mu sg1 m lp (len (fwd l) + len code) (R6Base (RDatum CVoid)) (upd6 rho1 x r1) \/
+      (tail = true /\ ok_t6 ob mu sg1 m (R6Base (RDatum CVoid)) (upd6 rho1 x r1)).
+Proof. exact sugar_compile6. Qed.
+Print Assumptions C01_sugar_compile6.
+
+(* Vm::eval of ANY datum whose top-level compilation succeeded with code that runs correctly *)
+Theorem C01_eval_of_exec6 :
+  forall (ob : N -> M vcell) (c : cell) mu sg rho r sg' rho' s l1 sA code,
+  minv s -> genv_rel6 mu rho s -> store_rel mu sg s ->
+  transform_expr TRANSFORM_FUEL s c = Ok c ->
+  compile_expression (S (S (cell_size c))) top_lam true c s = ROk l1 sA ->
+  fwd l1 = fwd top_lam ++ code -> same_hdr top_lam l1 -> minv sA -> cext s sA -> same_regs s sA ->
+  envs (st sA) = envs (st s) ->
+  (forall m mu0 lp bc,
+      cext sA m -> minv m -> code_in m lp bc -> seg bc (len (fwd top_lam)) code -> ip m = (lp, len (fwd top_lam)) ->
+      genv_rel6 mu0 rho m -> lrel6 mu0 [] m -> store_rel mu0 sg m -> (true = true -> tframe m) ->
+      ok_n6 ob mu0 sg' m lp (len (fwd top_lam) + len code) r rho' \/ (true = true /\ ok_t6 ob mu0 sg' m r rho')) ->
+  exists n m mu', (forall fuel, (n <= fuel)%nat -> eval ob fuel c s = halt_result m) /\
+    (exists more, mu' = mu ++ more) /\ vrep6 mu' m (acc m) r /\ genv_rel6 mu' rho' m /\ store_rel mu' sg' m /\
+    minv m /\ cext s m /\ sp m = sp s /\ bp m = bp s /\ ep m = ep s /\ out_log m = out_log s.
+Proof. exact eval_of_exec6. Qed.
+Print Assumptions C01_eval_of_exec6.
+
+(* C01_eval_fragment6 for the top-level form (define (x p1 ... pn) b1 ... bk) *)
+Theorem C01_eval_fragment6_sugar :
+  forall (ob : N -> M vcell) (bsem : N -> list rval -> option rval),
+  (forall b, builtin_ok ob bsem b) -> (forall b, builtin_envs ob bsem b) ->
+  forall x ps fs bodies mu sg rho r sg' rho' s,
+  wf6 (WDefine x (WLam ps fs bodies)) [] ->
+  ref_eval6 bsem [] [] sg rho (WDefine x (WLam ps fs bodies)) r sg' rho' ->
+  minv s -> genv_rel6 mu rho s -> store_rel mu sg s ->
+  transform_expr TRANSFORM_FUEL s (sugar6 x ps bodies) = Ok (sugar6 x ps bodies) ->
+  exists n m mu', (forall fuel, (n <= fuel)%nat -> eval ob fuel (sugar6 x ps bodies) s = halt_result m) /\
+    (exists more, mu' = mu ++ more) /\ vrep6 mu' m (acc m) r /\ genv_rel6 mu' rho' m /\ store_rel mu' sg' m /\
+    minv m /\ cext s m /\ sp m = sp s /\ bp m = bp s /\ ep m = ep s /\ out_log m = out_log s.
+Proof. exact eval_fragment6_sugar. Qed.
+Print Assumptions C01_eval_fragment6_sugar.
+
+(* ... on the booted machine and every session state (R2) *)
+Theorem C01_eval_fragment6_sugar_session :
+  forall (ob : N -> M vcell) (bsem : N -> list rval -> option rval),
+  (forall b, builtin_ok ob bsem b) -> (forall b, builtin_envs ob bsem b) ->
+  forall x ps fs bodies mu sg rho r sg' rho' s0 s,
+  booted = Some s0 -> FlatAll.evals s0 s ->
+  wf6 (WDefine x (WLam ps fs bodies)) [] ->
+  ref_eval6 bsem [] [] sg rho (WDefine x (WLam ps fs bodies)) r sg' rho' -> genv_rel6 mu rho s -> store_rel mu sg s ->
+  transform_expr TRANSFORM_FUEL s (sugar6 x ps bodies) = Ok (sugar6 x ps bodies) ->
+  exists n m mu', (forall fuel, (n <= fuel)%nat -> eval ob fuel (sugar6 x ps bodies) s = halt_result m) /\
+    (exists more, mu' = mu ++ more) /\ vrep6 mu' m (acc m) r /\ genv_rel6 mu' rho' m /\ store_rel mu' sg' m /\
+    minv m /\ cext s m /\ sp m = sp s /\ bp m = bp s /\ ep m = ep s /\ out_log m = out_log s.
+Proof. exact DefineSugarBoot.eval_fragment6_sugar_session. Qed.
+Print Assumptions C01_eval_fragment6_sugar_session.
+
+(* non-vacuity: (define (flip b) (if b #f #t)) — the datum the reader produces for the text is the
+   sugared datum of the fragment-6 expression (define flip (lambda (b) (if b #f #t))); every
+   hypothesis of C01_eval_fragment6_sugar holds on the empty machine; reference value #<void>,
+   final global environment flip |-> the closure ... *)
+Example C01_define_sugar_example :
+  match Parse.parse_text DefineSugarBoot.flip_src6 with
+  | Ok (d, _) => d = sugar6 DefineSugarBoot.flip6 [DefineSugarBoot.b6] DefineSugarBoot.flip_bodies6
+  | _ => False end /\
+  wf6 DefineSugarBoot.flip_def6 [] /\ minv (vm_empty 8192) /\ genv_rel6 [] rho6_empty (vm_empty 8192) /\
+  store_rel [] [] (vm_empty 8192) /\
+  ref_eval6 bsem_not [] [] [] rho6_empty DefineSugarBoot.flip_def6 vVoid6 []
+            (upd6 rho6_empty DefineSugarBoot.flip6 DefineSugarBoot.flip_val6) /\
+  transform_expr TRANSFORM_FUEL (vm_empty 8192) (sugar6 DefineSugarBoot.flip6 [DefineSugarBoot.b6] DefineSugarBoot.flip_bodies6)
+    = Ok (sugar6 DefineSugarBoot.flip6 [DefineSugarBoot.b6] DefineSugarBoot.flip_bodies6).
+Proof. split; [exact DefineSugarBoot.flip6_parse|exact DefineSugarBoot.flip6_hypotheses]. Qed.
+(* ... and the model: the sugared form then (flip #f) answer #<void> then #t, as does the translated
+   form; the two compilations give the same lambda object, heap and global slots *)
+Example C01_define_sugar_example_run :
+  (match eval other_builtin 300 (sugar6 DefineSugarBoot.flip6 [DefineSugarBoot.b6] DefineSugarBoot.flip_bodies6) (vm_empty 8192) with
+   | ROk (Done c) s1 => c = CVoid /\
+       match eval other_builtin 300 (cell_of6 DefineSugarBoot.flip_call6) s1 with
+       | ROk (Done c') s2 => c' = CBool true /\ sp s2 = 0 /\ bp s2 = 0 /\ ep s2 = USIZE_MAX
+       | _ => False
+       end
+   | _ => False
+   end) /\
+  (match eval other_builtin 300 (desugar_define (sugar6 DefineSugarBoot.flip6 [DefineSugarBoot.b6] DefineSugarBoot.flip_bodies6)) (vm_empty 8192) with
+   | ROk (Done c) s1 => c = CVoid /\
+       match eval other_builtin 300 (cell_of6 DefineSugarBoot.flip_call6) s1 with
+       | ROk (Done c') s2 => c' = CBool true /\ sp s2 = 0 /\ bp s2 = 0 /\ ep s2 = USIZE_MAX
+       | _ => False
+       end
+   | _ => False
+   end).
+Proof. exact DefineSugarBoot.flip6_run. Qed.
+Example C01_define_spelling_example :
+  match compile_expression 50 (lambda_new []) true (sugar6 DefineSugarBoot.flip6 [DefineSugarBoot.b6] DefineSugarBoot.flip_bodies6) (vm_empty 8192),
+        compile_expression 51 (lambda_new []) true (desugar_define (sugar6 DefineSugarBoot.flip6 [DefineSugarBoot.b6] DefineSugarBoot.flip_bodies6)) (vm_empty 8192) with
+  | ROk l1 s1, ROk l2 s2 => l1 = l2 /\ hp s1 = hp s2 /\ g_slots s1 = g_slots s2 /\ fwd l1 <> []
+  | _, _ => False
+  end.
+Proof. exact DefineSugarBoot.flip6_spelling_run. Qed.
